@@ -103,6 +103,9 @@ pub struct Repl {
     pub resurrections: Vec<String>,
     /// the last convergence attempt ended with replication refused between some pair
     pub partitioned_seen: bool,
+    /// replica of the last local write (search order: the OTHER replicas' operations come first,
+    /// so that concurrent edits are reached before sequential ones when a time budget cuts the search)
+    pub last_writer: Option<usize>,
 }
 
 fn mk_entry(slot: usize, name: &str) -> Entry<EntryInit, EntryNew> {
@@ -155,6 +158,7 @@ impl Repl {
             dead_seen: vec![[false; NSLOTS]; n],
             resurrections: Vec::new(),
             partitioned_seen: false,
+            last_writer: None,
             cfg,
         };
         // join everyone to replica 0's domain
@@ -744,7 +748,11 @@ impl World for Repl {
         let n = self.cfg.replicas;
         let slots = self.cfg.slots.clone();
         let mut v = Vec::new();
-        for r in 0..n {
+        let order: Vec<usize> = match self.last_writer {
+            Some(l) => (0..n).filter(|r| *r != l).chain(std::iter::once(l)).collect(),
+            None => (0..n).collect(),
+        };
+        for r in order {
             for &s in &slots {
                 let life = self.life(r, s);
                 match life {
@@ -817,6 +825,10 @@ impl World for Repl {
 
     fn apply(&mut self, op: &Op) -> String {
         let l = self.apply_inner(op);
+        match op {
+            Op::Create(r, ..) | Op::Rename(r, ..) | Op::SetDisp(r, ..) | Op::SetMail(r, ..) | Op::PurgeMail(r, ..) | Op::Delete(r, ..) | Op::Revive(r, ..) | Op::AddMember(r, ..) | Op::RemMember(r, ..) => self.last_writer = Some(*r),
+            _ => {}
+        }
         if let (Op::Revive(_, s), "ok") = (op, l.as_str()) {
             for d in self.dead_seen.iter_mut() {
                 d[*s] = false;
